@@ -73,13 +73,13 @@ type c15Fault struct {
 }
 
 type c15Result struct {
-	records   [][]byte // packed records delivered (all envelopes)
-	errIndex  int      // index of the first envelope with Error != nil, -1 if none
-	envelopes int
-	closedCh  bool
+	records    [][]byte // packed records delivered (all envelopes)
+	errIndex   int      // index of the first envelope with Error != nil, -1 if none
+	envelopes  int
+	closedCh   bool
 	connCloses int
-	hung      bool
-	lastErr   error
+	hung       bool
+	lastErr    error
 }
 
 // runTransfer plays the primary: it writes the envelopes (with the fault) and lets the library's
